@@ -10,7 +10,9 @@
 // in readProbeLine (`make([]byte, E)`) and the bound its position is compared
 // with; the bound relativePos is compared with in readNextLine and the bound
 // position is compared with in initBuffer; the keys readQLogTimestamp passes to
-// readJSONValue, in order; the layout it passes to time.Parse.  Every expression
+// readJSONValue, in order; the layout it passes to time.Parse; validateQLogLineIdx
+// as a first-match decision list (nested if / else-if of == comparisons, each
+// branch ending in a return of nil or an errTS* value).  Every expression
 // must be a typed constant; anything else (or a missing / duplicated site)
 // aborts with file:line — a broken tie, never a default.
 package main
@@ -268,6 +270,89 @@ func main() {
 	fmt.Fprintf(&sb, "def tsKeys : List (List Nat) := [%s, %s]\n\n", bytesLit(keys[0]), bytesLit(keys[1]))
 	fmt.Fprintf(&sb, "/-- readQLogTimestamp: layout passed to time.Parse: %q -/\n", layouts[0])
 	fmt.Fprintf(&sb, "def timeLayout : List Nat := %s\n\n", bytesLit(layouts[0]))
+	// validateQLogLineIdx as a first-match decision list: (conjunction of comparisons, result).
+	vq := funcDecl(pkg, "qLogFile", "validateQLogLineIdx")
+	type vrow struct {
+		conds [][3]string
+		res   string
+	}
+	var vrows []vrow
+	resultName := func(rs *ast.ReturnStmt) string {
+		if len(rs.Results) != 1 {
+			die(rs.Pos(), "validateQLogLineIdx: return with %d results", len(rs.Results))
+		}
+		name := ""
+		ast.Inspect(rs.Results[0], func(n ast.Node) bool {
+			if id, ok := n.(*ast.Ident); ok && (strings.HasPrefix(id.Name, "errTS") || id.Name == "nil") {
+				if name != "" {
+					die(id.Pos(), "validateQLogLineIdx: two result names in one return")
+				}
+				name = id.Name
+			}
+
+			return true
+		})
+		if name == "" {
+			die(rs.Pos(), "validateQLogLineIdx: return of something that is neither nil nor an errTS* value")
+		}
+
+		return name
+	}
+	var flatten func(list []ast.Stmt, prefix [][3]string) (terminated bool)
+	flatten = func(list []ast.Stmt, prefix [][3]string) (terminated bool) {
+		for _, st := range list {
+			switch x := st.(type) {
+			case *ast.ReturnStmt:
+				vrows = append(vrows, vrow{conds: append([][3]string(nil), prefix...), res: resultName(x)})
+
+				return true
+			case *ast.IfStmt:
+				for cur := x; cur != nil; {
+					if cur.Init != nil {
+						die(cur.Pos(), "validateQLogLineIdx: if with init")
+					}
+					be, ok := cur.Cond.(*ast.BinaryExpr)
+					if !ok || be.Op != token.EQL {
+						die(cur.Pos(), "validateQLogLineIdx: condition is not an == comparison")
+					}
+					c := [3]string{types.ExprString(be.X), "==", types.ExprString(be.Y)}
+					if !flatten(cur.Body.List, append(append([][3]string(nil), prefix...), c)) {
+						die(cur.Pos(), "validateQLogLineIdx: a branch that falls through")
+					}
+					switch e := cur.Else.(type) {
+					case nil:
+						cur = nil
+					case *ast.IfStmt:
+						cur = e
+					default:
+						die(cur.Pos(), "validateQLogLineIdx: else block")
+					}
+				}
+			default:
+				die(st.Pos(), "validateQLogLineIdx: statement outside the supported shape")
+			}
+		}
+
+		return false
+	}
+	if !flatten(vq.Body.List, nil) {
+		die(vq.Pos(), "validateQLogLineIdx: does not end in a return")
+	}
+	sb.WriteString("/-- validateQLogLineIdx as a first-match decision list: (conjunction of comparisons, result) -/\n")
+	sb.WriteString("def validateRows : List (List (String × String × String) × String) := [\n")
+	for i, r := range vrows {
+		cs := make([]string, len(r.conds))
+		for j, c := range r.conds {
+			cs[j] = fmt.Sprintf("(%q, %q, %q)", c[0], c[1], c[2])
+		}
+		sep := ","
+		if i == len(vrows)-1 {
+			sep = ""
+		}
+		fmt.Fprintf(&sb, "  ([%s], %q)%s\n", strings.Join(cs, ", "), r.res, sep)
+		facts = append(facts, fact{Name: "validateQLogLineIdx.row", Value: fmt.Sprintf("%v -> %s", r.conds, r.res), Pos: fset.Position(vq.Pos()).String()})
+	}
+	sb.WriteString("]\n\n")
 	sb.WriteString("end AGH.Gen.C20\n")
 
 	root, _ := filepath.Abs(filepath.Join("..", ""))
